@@ -119,6 +119,17 @@ def getMask (r : Recs) (m : List Bool) : Except Err Recs :=
   | .error e => .error e
   | .ok ps => .ok ⟨r.cols, (ps.filter (·.2)).map (·.1)⟩
 
+/-- the PLAIN reading of `d[mask]` on a list of records, with nothing but `zip`, `filter`, `map` (no `zipper`,
+`lens`, `bcast`) - this is what the reference machine `specStep` does:
+  * one flag per record: keep the flagged records, in order (`Recs.mask`);
+  * a single flag (and not exactly one record): all records if it is `True`, none otherwise;
+  * any other length: `ValueError`. -/
+def getMaskPlain (r : Recs) (m : List Bool) : Except Err Recs :=
+  if m.length = r.rows.length then .ok ⟨r.cols, ((r.rows.zip m).filter (·.2)).map (·.1)⟩
+  else match m with
+    | [flag] => .ok ⟨r.cols, if flag then r.rows else []⟩
+    | _ => .error .value
+
 /-- `d[['a','b']]`: every record restricted to the named fields (a repeated name counts once);
 `d[[]]` keeps the columns and no record -/
 def getProj (r : Recs) (ks : List String) : Except Err Recs :=
@@ -129,9 +140,13 @@ def getProj (r : Recs) (ks : List String) : Except Err Recs :=
 
 /-! ### derived columns -/
 
-/-- `res[k] = [f(**record) for record in res]` -/
+/-- `f(key = k, **record)` for every record (the record's own fields win over the default `key`) -/
+def applyFnK (r : Recs) (key : String) (f : Fn) : Except Err (List Cell) :=
+  mapE (fun row => f.eval (keyDflt key (get? r.cols row))) r.rows
+
+/-- `res[k] = [f(key = k, **record) for record in res]` -/
 def setFn (r : Recs) (kf : String × Fn) : Except Err Recs :=
-  match r.applyFn kf.2 with
+  match r.applyFnK kf.1 kf.2 with
   | .error e => .error e
   | .ok vs => r.setitem kf.1 (.many vs)
 
@@ -275,7 +290,7 @@ def specStep (s : RHeap) (op : Op) : RHeap × Out :=
   | .tup h ks => withT h fun t => s.query ((t.getTuple ks).map fun rs => .list (rs.map fun r => .tuple (r.map .cell)))
   | .apply h f => withT h fun t => s.query ((t.applyFn f).map cellsVal)
   | .slice dst h a b st => withT h fun t => s.bind dst (t.getSlice a b st)
-  | .mask dst h m => withT h fun t => s.bind dst (t.getMask m)
+  | .mask dst h m => withT h fun t => s.bind dst (t.getMaskPlain m)
   | .take dst h is => withT h fun t => s.bind dst (t.take is)
   | .proj dst h ks => withT h fun t => s.bind dst (t.getProj ks)
   | .call dst h consts fns => withT h fun t => s.bind dst (t.call consts fns)
